@@ -120,4 +120,188 @@ example : ¬ Valid [49, 48] := by
 example : encode [0, 0, 1, 2] = [49, 49, 53, 84] ∧ decode [49, 49, 53, 84] = [0, 0, 1, 2] := by decide
 example : decode [49, 48, 50] = [] := by decide
 
+
+/-! ## (c) hex forms of Key / Hash / Signature / CosiSignature -/
+
+theorem fromHexChar_hexDigit : ∀ n, n < 16 → fromHexChar (hexDigit n) = some n := by decide
+
+theorem byte_split (x : UInt8) : ((x.toNat / 16) * 16 + x.toNat % 16).toUInt8 = x := by
+  have : x.toNat / 16 * 16 + x.toNat % 16 = x.toNat := by omega
+  rw [this]; simp
+
+theorem hexDecode_encode_append : ∀ (b t : Bytes),
+    hexDecode (hexEncode b ++ t) = (hexDecode t).map (b ++ ·)
+  | [], t => by simp [hexEncode]
+  | x :: r, t => by
+    have hx := UInt8.toNat_lt_size x
+    have h1 : x.toNat / 16 < 16 := by
+      have : x.toNat < 256 := hx
+      omega
+    have h2 : x.toNat % 16 < 16 := Nat.mod_lt _ (by decide)
+    simp only [hexEncode, List.cons_append, hexDecode, fromHexChar_hexDigit _ h1, fromHexChar_hexDigit _ h2,
+      hexDecode_encode_append r t, byte_split]
+    cases hexDecode t <;> simp
+
+/-- `hex.DecodeString(hex.EncodeToString(b)) = b` -/
+theorem hex_decode_encode (b : Bytes) : hexDecode (hexEncode b) = some b := by
+  have := hexDecode_encode_append b []
+  simpa [hexDecode] using this
+
+/-- Printing then parsing a key or hash (n = 32) or a signature (n = 64) gives the value back. -/
+theorem hex_print_parse (n : Nat) (b : Bytes) (h : b.length = n) : fixedParse n (hexEncode b) = some b := by
+  simp [fixedParse, hex_decode_encode, h]
+
+theorem key_print_parse (k : Bytes) (h : k.length = 32) : fixedParse 32 (hexEncode k) = some k :=
+  hex_print_parse 32 k h
+
+theorem signature_print_parse (sg : Bytes) (h : sg.length = 64) : fixedParse 64 (hexEncode sg) = some sg :=
+  hex_print_parse 64 sg h
+
+theorem hexEncode_length : ∀ b : Bytes, (hexEncode b).length = 2 * b.length
+  | [] => rfl
+  | _ :: r => by simp [hexEncode, hexEncode_length r]; omega
+
+theorem hexVal_digits : ∀ (ds : List Nat) (acc : Nat), (∀ d ∈ ds, d < 16) →
+    hexVal acc (ds.map hexDigit) = some (ds.foldl (fun a d => a * 16 + d) acc)
+  | [], _, _ => rfl
+  | d :: r, acc, h => by
+    simp only [List.map_cons, Keys.hexVal, fromHexChar_hexDigit d (h d (by simp)), List.foldl_cons]
+    exact hexVal_digits r _ (fun x hx => h x (by simp [hx]))
+
+theorem hexDecode_digits : ∀ (k : Nat) (ds : List Nat), ds.length = 2 * k → (∀ d ∈ ds, d < 16) →
+    ∃ out, hexDecode (ds.map hexDigit) = some out ∧ out.length = k
+  | 0, ds, hl, _ => by
+    have : ds = [] := List.length_eq_zero_iff.mp (by omega)
+    subst this; exact ⟨[], rfl, rfl⟩
+  | k + 1, [], hl, _ => by simp at hl
+  | k + 1, [_], hl, _ => by simp at hl; omega
+  | k + 1, a :: b :: r, hl, h => by
+    obtain ⟨out, ho, hlen⟩ := hexDecode_digits k r (by simp at hl; omega) (fun x hx => h x (by simp [hx]))
+    refine ⟨(a * 16 + b).toUInt8 :: out, ?_, ?_⟩
+    · simp only [List.map_cons, hexDecode, fromHexChar_hexDigit a (h a (by simp)),
+        fromHexChar_hexDigit b (h b (by simp)), ho]
+    · simp [hlen]
+
+/-- `fmt016x` is 16 hex digits: zero padding followed by the base-16 digits -/
+theorem fmt016x_eq (m : Nat) (hm : m < 2 ^ 64) :
+    ∃ ds : List Nat, fmt016x m = ds.map hexDigit ∧ ds.length = 16 ∧ (∀ d ∈ ds, d < 16) ∧ ofBE 16 ds = m := by
+  have hlen : (Nat.digits 16 m).length ≤ 16 := (Nat.digits_length_le_iff (by decide) m).mpr (by simpa using hm)
+  refine ⟨List.replicate (16 - (Nat.digits 16 m).length) 0 ++ (Nat.digits 16 m).reverse, ?_, ?_, ?_, ?_⟩
+  · unfold fmt016x
+    rw [digitsLE_eq (by decide)]
+    simp only [List.length_map, List.length_reverse, List.map_append, List.map_replicate]
+    rfl
+  · simp only [List.length_append, List.length_replicate, List.length_reverse]; omega
+  · intro d hd
+    rw [List.mem_append] at hd
+    rcases hd with hd | hd
+    · rw [List.mem_replicate] at hd; omega
+    · exact Nat.digits_lt_base (by decide) (List.mem_reverse.mp hd)
+  · rw [ofBE_zeros, ofBE_digits]
+
+/-- Printing then parsing a collective signature (64-byte signature, 64-bit mask) gives it back. -/
+theorem cosi_print_parse (sg : Bytes) (mask : Nat) (hs : sg.length = 64) (hm : mask < 2 ^ 64) :
+    cosiParse (cosiPrint sg mask) = some (sg, mask) := by
+  obtain ⟨ds, hfmt, hdl, hdlt, hval⟩ := fmt016x_eq mask hm
+  obtain ⟨tail, htail, htl⟩ := hexDecode_digits 8 ds (by omega) hdlt
+  have hdrop : (hexEncode sg ++ fmt016x mask).drop (64 * 2) = fmt016x mask := by
+    apply List.drop_left'
+    rw [hexEncode_length, hs]
+  have hne : fmt016x mask ≠ [] := by
+    intro e
+    have : (fmt016x mask).length = 16 := by rw [hfmt, List.length_map, hdl]
+    rw [e] at this; simp at this
+  have hpu : parseUintHex (fmt016x mask) = some mask := by
+    unfold parseUintHex
+    rw [if_neg hne, hfmt, hexVal_digits ds 0 hdlt]
+    have : ds.foldl (fun a d => a * 16 + d) 0 = mask := hval
+    rw [this]
+    have hm' : mask < 2 ^ 64 := hm
+    simp only [hm', if_true]
+  unfold cosiParse cosiPrint
+  rw [hexDecode_encode_append, hdrop, hpu, hfmt, htail]
+  simp [hs, htl, List.take_left' hs]
+
+example : cosiParse (cosiPrint (List.replicate 64 0xab) 0x1f) = some (List.replicate 64 0xab, 0x1f) := by decide
+example : fixedParse 32 (hexEncode (List.replicate 32 7)) = some (List.replicate 32 7) := by decide
+-- the parsers also accept upper-case digits, which do not print back identically
+example : fixedParse 1 [65, 66] = some [0xab] ∧ hexEncode [0xab] = [97, 98] := by decide
+
+
+/-! ## (c) addresses
+
+`H` is the checksum hash (`crypto.Sha256Hash`, 32 bytes of output, otherwise arbitrary),
+`ck` is `Key.CheckKey`. Only the two public keys travel through the text form; the private
+keys of a parsed address are zero. -/
+
+/-- Printing an address whose public keys pass `CheckKey` and parsing the text gives the keys back. -/
+theorem address_print_parse (H : Bytes → Bytes) (ck : Bytes → Bool) (spend view : Bytes)
+    (hH : ∀ m, (H m).length = 32) (hs : spend.length = 32) (hv : view.length = 32)
+    (hcs : ck spend = true) (hcv : ck view = true) :
+    addrParse H ck (addrPrint H spend view) = some (spend, view) := by
+  have hck : ((H (prefixXIN ++ spend ++ view)).take 4).length = 4 := by
+    rw [List.length_take, hH]; rfl
+  have hsv : (spend ++ view).length = 64 := by rw [List.length_append, hs, hv]
+  unfold addrParse addrPrint
+  simp only []
+  have h3 : (prefixXIN ++ encode (spend ++ view ++ (H (prefixXIN ++ spend ++ view)).take 4)).take 3 = prefixXIN :=
+    List.take_left' rfl
+  have hd : (prefixXIN ++ encode (spend ++ view ++ (H (prefixXIN ++ spend ++ view)).take 4)).drop 3 =
+      encode (spend ++ view ++ (H (prefixXIN ++ spend ++ view)).take 4) := List.drop_left' rfl
+  rw [h3, hd, base58_decode_encode]
+  have hlen : (spend ++ view ++ (H (prefixXIN ++ spend ++ view)).take 4).length = 68 := by
+    rw [List.length_append, hsv, hck]
+  have ht64 : (spend ++ view ++ (H (prefixXIN ++ spend ++ view)).take 4).take 64 = spend ++ view :=
+    List.take_left' hsv
+  have hd64 : (spend ++ view ++ (H (prefixXIN ++ spend ++ view)).take 4).drop 64 =
+      (H (prefixXIN ++ spend ++ view)).take 4 := List.drop_left' hsv
+  have ht32 : (spend ++ view ++ (H (prefixXIN ++ spend ++ view)).take 4).take 32 = spend := by
+    rw [List.append_assoc]; exact List.take_left' hs
+  have hd32 : ((spend ++ view ++ (H (prefixXIN ++ spend ++ view)).take 4).drop 32).take 32 = view := by
+    rw [List.append_assoc, List.drop_left' hs]; exact List.take_left' hv
+  rw [hlen, ht64, hd64, ht32, hd32]
+  simp [hcs, hcv, List.append_assoc]
+
+/-- Every address string the parser accepts prints back identically: there is no second
+    accepted spelling (extra leading characters, other case, other checksum position). -/
+theorem address_parse_print (H : Bytes → Bytes) (ck : Bytes → Bool) (s spend view : Bytes)
+    (h : addrParse H ck s = some (spend, view)) : addrPrint H spend view = s := by
+  unfold addrParse at h
+  simp only [] at h
+  split_ifs at h with hp hl hc hks hkv
+  simp only [Option.some.injEq, Prod.mk.injEq] at h
+  obtain ⟨hsp, hvw⟩ := h
+  simp only [Decidable.not_not] at hp hl hc
+  -- the remainder is over the alphabet, otherwise `Decode` would have answered ""
+  have hvalid : Valid (s.drop 3) := by
+    by_contra hn
+    rw [base58_decode_invalid _ hn] at hl
+    simp at hl
+  have henc := base58_encode_decode _ hvalid
+  have hsv : spend ++ view = (decode (s.drop 3)).take 64 := by
+    rw [← hsp, ← hvw, show (64 : Nat) = 32 + 32 from rfl, List.take_add]
+  unfold addrPrint
+  simp only []
+  rw [List.append_assoc prefixXIN, hsv, hc, List.take_append_drop, henc, ← hp, List.take_append_drop]
+
+/-- The text form determines the two public keys (used by C34, where the Go code compares
+    address strings). -/
+theorem address_print_injective (H : Bytes → Bytes) (a b a' b' : Bytes)
+    (ha : a.length = 32) (hb : b.length = 32) (ha' : a'.length = 32) (hb' : b'.length = 32)
+    (h : addrPrint H a b = addrPrint H a' b') : a = a' ∧ b = b' := by
+  unfold addrPrint at h
+  simp only [] at h
+  have h1 := List.append_cancel_left h
+  have h2 := congrArg decode h1
+  rw [base58_decode_encode, base58_decode_encode] at h2
+  simp only [List.append_assoc] at h2
+  have h3 := List.append_inj h2 (by rw [ha, ha'])
+  have h4 := List.append_inj h3.2 (by rw [hb, hb'])
+  exact ⟨h3.1, h4.1⟩
+
+example : addrParse (fun _ => List.replicate 32 9) (fun _ => true)
+    (addrPrint (fun _ => List.replicate 32 9) (List.replicate 32 1) (List.replicate 32 2)) =
+      some (List.replicate 32 1, List.replicate 32 2) :=
+  address_print_parse _ _ _ _ (fun _ => rfl) rfl rfl rfl rfl
+
 end Mixin.C32
